@@ -8,6 +8,8 @@ _WQ, _WT = 8, 14
 PROP = {
     "modules": ["YorkieModel.Props.C20"],
     "engines": [
+        # integrated engine: real client SDK + real in-process server (memory DB), traffic captured at the HTTP transport
+        {"name": "srv", "args": ["orc=c20"], "quick": {"n": 320, "workers": 8}, "thorough": {"n": 8000, "workers": 14}},
         {"name": "store", "quick": {"n": 16000, "workers": 4}, "thorough": {"n": 1000000, "workers": 10}},
         {"name": "storex", "quick": {"n": _WQ * _WQ, "workers": _WQ}, "thorough": {"n": _WT * _WT, "workers": _WT}},
         {"name": "lru", "quick": {"n": 6000, "workers": 2}, "thorough": {"n": 300000, "workers": 4}},
